@@ -318,7 +318,10 @@ func pardoWorld(r *R) {
 					if c == first || p.latency != long || !p.respect {
 						continue
 					}
-					if c.startSeq < first.endSeq && c.endSeq > first.endSeq {
+					// (only in runs without injected stalls: the failing worker still has to get from
+					// f's return to errgroup's cancel, and a series of stalls can hold it up for longer
+					// than the second of margin - a thorough sweep showed 1.1 s once in 10^7 runs)
+					if c.startSeq < first.endSeq && c.endSeq > first.endSeq && r.Cfg.StallPer1k == 0 {
 						if first.endAt < c.startAt+int64(long)-int64(time.Second) && c.endAt >= c.startAt+int64(long) {
 							r.Violate("C13", "others-not-cancelled", "f(%d) failed at t=%v while f(%d) was waiting on its context, but that context was never cancelled (f(%d) ran its full %v)", first.idx, time.Duration(first.endAt), c.idx, c.idx, long)
 							return
